@@ -339,6 +339,7 @@ class Inliner:
         tl = len(locals_); locals_.append({"ty": {"s": "(?,)", "k": "tuple", "hp": False, "nd": False, "dp": 0}, "name": None})
         ul = len(locals_); locals_.append({"ty": {"s": "()", "k": "tuple", "hp": False, "nd": False, "dp": 0}, "name": None})
         fl = len(locals_); locals_.append({"ty": fty, "name": None})
+        frl = len(locals_); locals_.append({"ty": {"s": "&mut ?", "k": "refmut", "hp": False, "nd": False, "dp": 0}, "name": None})
         cleanup = blocks[b]["cleanup"]
         hdr = len(blocks)
         sw = hdr + 1
@@ -356,9 +357,9 @@ class Inliner:
         blocks.append({"cleanup": cleanup, "stmts": [
             {"k": "assign", "dst": {"l": pl_, "p": []}, "rv": {"k": "use", "op": payload}, **span},
             {"k": "assign", "dst": {"l": tl, "p": []}, "rv": {"k": "agg", "ak": "tuple", "name": "", "variant": "", "vidx": 0, "fields": [], "ops": [{"k": "move", "pl": {"l": pl_, "p": []}}]}, **span},
-            {"k": "assign", "dst": {"l": rl, "p": []}, "rv": {"k": "ref", "mut": True, "pl": {"l": fl, "p": []}}, **span}],
+            {"k": "assign", "dst": {"l": frl, "p": []}, "rv": {"k": "ref", "mut": True, "pl": {"l": fl, "p": []}}, **span}],
             "term": {"k": "call", "callee": {"def": "core::ops::FnMut::call_mut", "full": "core::ops::FnMut::call_mut", "crate": "core", "args": [], "targs": [], "local": False, "trait": "core::ops::FnMut"},
-                     "fnop": {"k": "const", "ty": unk, "desc": "call_mut"}, "args": [{"k": "move", "pl": {"l": rl, "p": []}}, {"k": "move", "pl": {"l": tl, "p": []}}],
+                     "fnop": {"k": "const", "ty": unk, "desc": "call_mut"}, "args": [{"k": "move", "pl": {"l": frl, "p": []}}, {"k": "move", "pl": {"l": tl, "p": []}}],
                      "argtys": [fty, {"s": "(?,)", "k": "tuple"}], "dst": {"l": ul, "p": []}, "target": hdr, "unwind": t["unwind"], **span}})
         blocks.append({"cleanup": cleanup, "stmts": [{"k": "assign", "dst": copy.deepcopy(t["dst"]), "rv": {"k": "use", "op": {"k": "const", "ty": {"s": "()", "k": "tuple"}, "desc": "()"}}, **span}],
                        "term": {"k": "goto", "target": t["target"], **span} if t["target"] is not None else {"k": "unreachable", **span}})
@@ -474,7 +475,66 @@ class Inliner:
         blocks[b]["term"] = {"k": "switch", "discr": mv(dl), "targets": [["0", nb0], ["1", nb0 + 1]], "otherwise": nb0, **span, "adaptor": kind}
         return new
 
+    def _expand_cell(self, b, t, callee, locals_, blocks):
+        """Cell::update(f) = set(f(get())), Cell::replace(v) = { old = get(); set(v); old }, Cell::take() = replace(0)
+        for Cell<usize>, expressed with the get/set calls the rules already understand."""
+        d = callee["def"]
+        m = d.rsplit("::", 1)[1]
+        args = t["args"]
+        span = {k: t.get(k) for k in ("file", "line", "exp", "macro")}
+        unk = {"s": "?", "k": "other", "hp": False, "nd": False, "dp": 0}
+        usz = {"s": "usize", "k": "int", "hp": False, "nd": False, "dp": 0}
+        targ = (callee.get("targs") or [{}])[0]
+        if targ.get("s") != "usize" or not args or args[0]["k"] not in ("copy", "move"):
+            return None
+        cleanup = blocks[b]["cleanup"]
+
+        def new_local(ty):
+            locals_.append({"ty": ty, "name": None})
+            return len(locals_) - 1
+
+        def mk_callee(name):
+            return {"def": "core::cell::Cell::<T>::" + name, "full": "core::cell::Cell::<usize>::" + name, "crate": "core", "args": ["usize"], "targs": [usz], "local": False}
+
+        cell = args[0]
+        old = new_local(usz)
+        unit = new_local({"s": "()", "k": "tuple", "hp": False, "nd": False, "dp": 0})
+        nb0 = len(blocks)
+        if m == "update":
+            fty = self._op_ty(args[1], locals_)
+            if fty is None or fty.get("k") not in ("closure", "fndef"):
+                return None
+            tl = new_local({"s": "(usize,)", "k": "tuple", "hp": False, "nd": False, "dp": 0})
+            nv = new_local(usz)
+            # b: old = get(cell) -> nb0 ; nb0: nv = f(old) -> nb0+1 ; nb0+1: set(cell, nv) -> target
+            blocks.append({"cleanup": cleanup, "stmts": [{"k": "assign", "dst": {"l": tl, "p": []}, "rv": {"k": "agg", "ak": "tuple", "name": "", "variant": "", "vidx": 0, "fields": [], "ops": [{"k": "move", "pl": {"l": old, "p": []}}]}, **span}],
+                           "term": {"k": "call", "callee": {"def": "core::ops::FnOnce::call_once", "full": "core::ops::FnOnce::call_once", "crate": "core", "args": [], "targs": [], "local": False, "trait": "core::ops::FnOnce"},
+                                    "fnop": {"k": "const", "ty": unk, "desc": "call_once"}, "args": [copy.deepcopy(args[1]), {"k": "move", "pl": {"l": tl, "p": []}}], "argtys": [fty, {"s": "(usize,)", "k": "tuple"}],
+                                    "dst": {"l": nv, "p": []}, "target": nb0 + 1, "unwind": t["unwind"], **span}})
+            blocks.append({"cleanup": cleanup, "stmts": [], "term": {"k": "call", "callee": mk_callee("set"), "fnop": {"k": "const", "ty": unk, "desc": "set"},
+                                                                 "args": [copy.deepcopy(cell), {"k": "move", "pl": {"l": nv, "p": []}}], "argtys": [t.get("argtys", [unk])[0], usz],
+                                                                 "dst": copy.deepcopy(t["dst"]), "target": t["target"], "unwind": t["unwind"], **span}})
+            blocks[b]["term"] = {"k": "call", "callee": mk_callee("get"), "fnop": {"k": "const", "ty": unk, "desc": "get"}, "args": [copy.deepcopy(cell)],
+                                 "argtys": [t.get("argtys", [unk])[0]], "dst": {"l": old, "p": []}, "target": nb0, "unwind": t["unwind"], **span, "adaptor": "Cell::update"}
+            return [nb0, nb0 + 1]
+        if m in ("replace", "take"):
+            newv = copy.deepcopy(args[1]) if m == "replace" else {"k": "const", "ty": usz, "int": "0", "size": 8, "desc": "0_usize"}
+            # b: old = get(cell) -> nb0 ; nb0: set(cell, newv) -> nb0+1 ; nb0+1: dst = old -> target
+            blocks.append({"cleanup": cleanup, "stmts": [], "term": {"k": "call", "callee": mk_callee("set"), "fnop": {"k": "const", "ty": unk, "desc": "set"},
+                                                                 "args": [copy.deepcopy(cell), newv], "argtys": [t.get("argtys", [unk])[0], usz],
+                                                                 "dst": {"l": unit, "p": []}, "target": nb0 + 1, "unwind": t["unwind"], **span}})
+            blocks.append({"cleanup": cleanup, "stmts": [{"k": "assign", "dst": copy.deepcopy(t["dst"]), "rv": {"k": "use", "op": {"k": "move", "pl": {"l": old, "p": []}}}, **span}],
+                           "term": {"k": "goto", "target": t["target"], **span} if t["target"] is not None else {"k": "unreachable", **span}})
+            blocks[b]["term"] = {"k": "call", "callee": mk_callee("get"), "fnop": {"k": "const", "ty": unk, "desc": "get"}, "args": [copy.deepcopy(cell)],
+                                 "argtys": [t.get("argtys", [unk])[0]], "dst": {"l": old, "p": []}, "target": nb0, "unwind": t["unwind"], **span, "adaptor": "Cell::" + m}
+            return [nb0, nb0 + 1]
+        return None
+
     def _expand_adaptor(self, b, t, callee, locals_, blocks):
+        if callee is not None and callee["def"] in ("core::cell::Cell::<T>::update", "core::cell::Cell::<T>::replace", "core::cell::Cell::<T>::take"):
+            r = self._expand_cell(b, t, callee, locals_, blocks)
+            if r is not None:
+                return r
         if callee is not None and callee["def"] == "core::iter::Iterator::for_each":
             return self._expand_for_each(b, t, callee, locals_, blocks)
         if callee is not None and callee["def"] in self.OPT_ADAPTORS:
